@@ -336,6 +336,23 @@ def check(case):
                 c3 = ca + collections.Counter({(sp0["el"], sp0["A"], sp0["q"] or 0): k})
                 if compare(v, f"Substance({ta!r}) + Element({sp_text(sp0)!r},{k})", r3, c3, nat) is not None or v.violations:
                     return v
+                # an Element of a species that is NEW to the substance (taken from b), given in the other isotope mode:
+                # the sum is a substance of its own mode, and extending it does not reach the element that was added
+                newsp = [it for it, _ in case["b"] if it["t"] == "s" and (it["el"], it["A"], it["q"] or 0) not in ca]
+                if newsp:
+                    spn = newsp[0]
+                    el_ = Element(sp_text(spn), k, natural=not nat)
+                    r4 = Substance(ta, natural=nat) + el_
+                    c4 = ca + collections.Counter({(spn["el"], spn["A"], spn["q"] or 0): k})
+                    if compare(v, f"Substance({ta!r}, natural={nat}) + Element({sp_text(spn)!r},{k}, natural={not nat})", r4, c4, nat) \
+                            is not None or v.violations:
+                        return v
+                    r4.add(sp_text(spn), 2)
+                    r5 = Substance(ta, natural=nat) + el_
+                    if compare(v, f"e = Element({sp_text(spn)!r},{k}); w = Substance({ta!r}) + e; w.add(...); Substance({ta!r}) + e",
+                               r5, c4, nat) is not None or v.violations:
+                        return v
+                    v.label("element_new_species_other_mode")
         except Exception as e:
             v.fail("formula-rejected", f"Substance({ta!r}) + Substance({tb!r}) / * {k} raised {e!r}")
             return v
